@@ -66,6 +66,10 @@ TEXT = {
          "equality, same field, heap disjointness and mutate-and-diff by the interpreter-level copy oracle for every class and collection trees",
          "CPython heap (deepcopy, class-level mutables, numpy views) is outside the list model",
          "Lean 4 theorems on a tree-level copy model + reachable-graph / np.shares_memory / mutate-and-diff oracle"),
+ "C15": ("proof (partial): in exact arithmetic every divisor of the Dipole, Sphere and straight-segment closed forms is non-zero off the documented singular set; float range, NaN and loop termination "
+         "are decided by the watchdogged special-set oracle (faces/edges/corners/axis/wire/thresholds at +-ulp, denormals, zero-size sources, 1e12 distances); recorded findings listed by input class",
+         "IEEE semantics are outside the real-number model; Lean's Float is opaque beyond + - * /",
+         "Lean 4 theorems over R on kernel ports + watchdogged special-point oracle on the real code"),
 }
 props = [json.loads(l) for l in open("properties.jsonl")]
 checks = []
